@@ -428,17 +428,30 @@ def extract_fname(cls):
     js = [n for n in ast.walk(m) if isinstance(n, ast.JoinedStr)]
     if len(js) != 1:
         raise ShapeError('_data_or_file: expected exactly one f-string file name')
+    # local names bound to the position of a key in the survey
+    IDX = {'list(self.survey.sources.keys()).index(source)': 'PSourceIdx',
+           'list(self.survey.frequencies.keys()).index(frequency)': 'PFrequencyIdx'}
+    local = {}
+    for n in ast.walk(m):
+        if isinstance(n, ast.Assign) and len(n.targets) == 1 and isinstance(n.targets[0], ast.Name):
+            local.setdefault(n.targets[0].id, []).append(n.value)
     pieces = []
     for v in js[0].values:
         if isinstance(v, ast.Constant):
             pieces.append(('PLit', v.value))
-        elif isinstance(v, ast.FormattedValue) and isinstance(v.value, ast.Name) \
-                and v.conversion == -1 and v.format_spec is None \
-                and v.value.id in ('what', 'source', 'frequency'):
-            pieces.append(({'what': 'PWhat', 'source': 'PSource',
-                            'frequency': 'PFrequency'}[v.value.id],))
-        else:
+            continue
+        if not (isinstance(v, ast.FormattedValue) and isinstance(v.value, ast.Name)
+                and v.conversion == -1 and v.format_spec is None):
             raise ShapeError('_data_or_file: file name piece not understood: ' + _src(v))
+        nm = v.value.id
+        if nm in ('what', 'source', 'frequency') and nm not in local:
+            pieces.append(({'what': 'PWhat', 'source': 'PSource',
+                            'frequency': 'PFrequency'}[nm],))
+        elif nm in local and len(local[nm]) == 1 and _src(local[nm][0]) in IDX:
+            pieces.append((IDX[_src(local[nm][0])],))
+        else:
+            raise ShapeError('_data_or_file: file name piece not understood: ' + _src(v)
+                             + (' = ' + _src(local[nm][0]) if nm in local else ''))
     return pieces
 
 
@@ -918,7 +931,7 @@ class _PatchedSolve:
         _SOLVE_STATE.clear()
 
 
-def gen_survey_spec(rng, big=False):
+def gen_survey_spec(rng, big=False, adversarial_keys=False):
     shape = [rng.choice([4, 4, 6, 8] if big else [4, 4, 6]) for _ in range(3)]
     nsrc = 3
     nfreq = rng.choice([2, 2, 3])
@@ -937,6 +950,10 @@ def gen_survey_spec(rng, big=False):
         obs_scale=1.0 + rng.randint(1, 8) / 16.0,
         vec_seed=rng.randint(0, 2**31 - 1),
     )
+    if adversarial_keys:
+        # arbitrary user strings as keys: separators, blanks, one key a prefix of another
+        spec['src_keys'] = ['Tx', 'Tx_A', 'S 3_f'][:nsrc]
+        spec['freq_keys'] = ['A_f1', 'f1', 'f_1'][:nfreq]
     return spec
 
 
@@ -951,12 +968,16 @@ def build_sim(spec, max_workers, file_dir):
     if spec['aniso'] == 'VTI':
         kw['property_z'] = px[::-1, :, :] * 0.5 + 0.25
     model = emg3d.Model(grid, **kw)
-    srcs = {f"TxED-{i + 1}": emg3d.TxElectricDipole(tuple(c)) for i, c in enumerate(spec['src'])}
+    skeys = spec.get('src_keys') or [f"TxED-{i + 1}" for i in range(len(spec['src']))]
+    srcs = {skeys[i]: emg3d.TxElectricDipole(tuple(c)) for i, c in enumerate(spec['src'])}
     recs = {}
     for i, (c, mag) in enumerate(zip(spec['rec'], spec['rec_magnetic'])):
         cls = emg3d.RxMagneticPoint if mag else emg3d.RxElectricPoint
         recs[f"Rx-{i + 1}"] = cls(tuple(c))
-    survey = emg3d.Survey(srcs, recs, spec['freqs'], noise_floor=1e-18, relative_error=0.05)
+    freqs = spec['freqs']
+    if spec.get('freq_keys'):
+        freqs = {k: v for k, v in zip(spec['freq_keys'], spec['freqs'])}
+    survey = emg3d.Survey(srcs, recs, freqs, noise_floor=1e-18, relative_error=0.05)
     sim = emg3d.Simulation(survey, model, max_workers=max_workers, gridding='same',
                            file_dir=file_dir, solver_opts={'sslsolver': False, 'maxit': 30},
                            tqdm_opts=False, receiver_interpolation='linear', verb=-1)
@@ -1175,6 +1196,26 @@ def correspondence_sim(ctx, dis, hist):
                             'spec_full': spec})
             elif len(samples) < 3 and first != sorted(first):
                 samples.append(brief)
+    # arbitrary string keys (file names must not depend on what the keys contain)
+    spec = gen_survey_spec(ctx.rng, adversarial_keys=True)
+    obs, ref = reference(spec)
+    nt = len(spec['src']) * len(spec['freqs'])
+    for mw, what in ((1, 'forward'), (2, 'gradient'), (1, 'jvec')):
+        cfg = dict(max_workers=mw, file_dir=True, what=what, pattern='reverse',
+                   delays=make_delays(ctx.rng, nt, 'reverse', 40.0 / nt) if mw > 1 else [],
+                   tqdm_masked=False, recompute=False)
+        digs, comp = run_sim_config(spec, cfg, obs)
+        runs += 1
+        hist['sim:adversarial_keys/file'] = hist.get('sim:adversarial_keys/file', 0) + 1
+        distinct.add(('keys', mw, True, what, False))
+        bad = compare_digests(ref[what], digs)
+        if bad:
+            dis.append({'what': 'file_dir run with arbitrary string keys differs bit-wise from '
+                                'the in-memory run',
+                        'signature': COLLISION_SIG,
+                        'case': {'src_keys': spec['src_keys'], 'freq_keys': spec['freq_keys'],
+                                 'config': {k: cfg[k] for k in ('max_workers', 'file_dir', 'what')}},
+                        'impl': bad[:6], 'model': 'identical digests', 'spec_full': spec})
     hist['sim:runs_with_perturbed_completion_order'] = perturbed
     return runs, len(distinct), samples
 
@@ -1235,6 +1276,19 @@ def _pm_hit(case, r, exp):
 def search(ctx, broken):
     rng = ctx.rng
     hits = []
+    # 0. the witness of Props/C11.v fname_unfixed_collision_refuted on the implementation
+    try:
+        if fname_collision_reproduces():
+            hits.append({'signature': COLLISION_SIG, 'kind': 'fname_collision',
+                         'sources': ['Tx', 'Tx_A'], 'frequencies': {'A_f1': 1.0, 'f1': 3.0},
+                         'config': 'Simulation(..., file_dir=<dir>, max_workers=1).compute()',
+                         'observed': "get_efield('Tx', 'A_f1') is the field of ('Tx_A', 'f1') "
+                                     "(frequency 3.0 Hz); both pairs use efield_Tx_A_f1.h5",
+                         'required': "the field of ('Tx', 'A_f1') (1.0 Hz), bit-identical to the "
+                                     "in-memory run"})
+            return hits
+    except Exception as e:      # noqa
+        ctx.notes.append('fname collision probe crashed: ' + repr(e))
     # 1. the real process_map under the most adversarial schedules
     for mw in (2, 3, 8):
         for pat in ('reverse', 'straggler'):
@@ -1309,7 +1363,8 @@ def replay(ctx, payload):
 
 
 # ---- finding: file names of file_dir mode are not injective ----------------
-FNAME_SIG = "C11: file_dir file name collision for keys containing '_'"
+FNAME_SIG = "C11: file_dir file name collision for keys containing '_'"   # historical
+COLLISION_SIG = "file_dir: two source-frequency pairs share one hand-over file"
 
 
 def fname_collision_reproduces():
@@ -1341,18 +1396,6 @@ def fname_collision_reproduces():
 
 
 def known_checks(ctx):
-    try:
-        rep = fname_collision_reproduces()
-    except Exception as e:      # noqa
-        ctx.notes.append('fname collision check crashed: ' + repr(e))
-        return []
-    what = ("file_dir mode: task files are named f'{what}_{source}_{frequency}.h5'; keys "
-            "('Tx','A_f1') and ('Tx_A','f1') collide, slot ('Tx','A_f1') silently receives the "
-            "field of ('Tx_A','f1') (Props/C11.v fname_collision_refuted, "
-            "file_collision_loses_task)")
-    listed = any(k['signature'] == FNAME_SIG for k in V.known_for(ID))
-    if rep and not listed:
-        # not yet in known_findings.json (shared file): record, do not fail the check
-        ctx.notes.append('FINDING (reproduced, not yet listed in known_findings.json): ' + what)
-        return []
-    return [(FNAME_SIG, rep, what)]
+    """Repaired defect (fix: file_dir hand-over file names): nothing is listed any more; a
+    reproduction is a violation and is reported by search()."""
+    return []
